@@ -335,6 +335,10 @@ def subspaces(tier, seed):
         sp.append(S("chunkwise-i8-A2-n1to3", 2, 1, 3, mode="chunkwise", vdtype="i8", bound=0, seed=seed))
         sp.append(S("chunkwise-M8-A0_2-n1to3", 2, 1, 3, mode="chunkwise", vdtype="M8[ns]",
                     with_mask=False, bound=0, seed=seed))
+        # narrow integer / bool values under several threads (their 'no value' filler is not a null)
+        for vd in ("i4", "u1", "b"):
+            sp.append(S(f"threads-{vd}-A0_2-n2to3", 2, 2, 3, mode="threads", vdtype=vd, with_mask=False,
+                        bound=0, seed=seed))
     else:
         sp.append(S("full-A2-n1to3-D2-allops", 2, 1, 3, mode="full", bound=2, thorough=True, seed=seed))
         sp.append(S("full-A2-n4", 2, 4, 4, mode="full", bound=1, seed=seed))
